@@ -45,7 +45,12 @@ out += ['### 8.2 Changes written by fresh sub-agents (`/verif/seeded/`)', '',
         'Each agent saw only the text of one property and its own scratch worktree, and was asked for changes that still pass the 17 tests '
         'and need something specific to manifest. Each change was confirmed in a scratch worktree (patch applies, `make check` 17/17, the '
         'agent\'s demonstration fails with the change and passes without) before the checks were run against it '
-        '(`tools/seedcheck.py`; details and commands in each `meta.json`).', '',
+        '(`tools/seedcheck.py`; details and commands in each `meta.json`). Seven rounds (variants a-j per property, plus cross-property '
+        'changes X1-X5): from the second round on each agent was also given one-line summaries of what earlier agents had tried for the same '
+        'property, to push it elsewhere; in rounds six and seven (g-j) it was additionally told, in general terms only, that the library is '
+        'checked by property-based testing and fuzzing and asked to hide the breakage where random generators rarely go. The "checks" column '
+        'shows the run recorded when the change was added (later generator extensions are described in 8.4); "MISSED" under a property other '
+        'than the change\'s own means that the neighbouring check was run for information.', '',
         '| seeded change | breaks | needs | confirmed | checks |', '|---|---|---|---|---|']
 for m in sorted(glob.glob(os.path.join(VERIF, 'seeded', '*', 'meta.json'))):
     d = json.load(open(m))
